@@ -208,3 +208,7 @@ m('diagonal_list_axes_sorted', ['C11'], '_base/diagonal.py',
   '            axis_destination = tuple(axis_destination)\n', '            axis_destination = tuple(sorted(axis_destination))\n')
 m('blockdiag_inverse_no_square_guard', ['C06'], '_base/blocks.py',
   '            return super().inverse()\n        return BlockDiagonalOperator', '            return self.T\n        return BlockDiagonalOperator')
+m('einsum_transposer_raises_for_every_string', ['C14'], '_base/dense.py',
+  'lefts = lefts.translate(str.maketrans(sum_axis + transpose_axis, transpose_axis + sum_axis))',
+  'lefts = lefts.translate(str.maketrans(sum_axis - transpose_axis, transpose_axis + sum_axis))',
+  note='found by the systematic mutants: with "any exception is a rejection" every string became "rejected" and only the twins noticed (exit 2)')
